@@ -39,8 +39,6 @@ theorem run_dropped (t : TaskSt) (h : TInv true t) (hc : t.word.notCancelled = f
     TInv false (dropRef (taskDropByExecutor { t with word := TaskState.unschedule t.word })) := by
   obtain ⟨⟨s, sg, nsw, hw, c, hr, nc, cnt⟩, st, slot, script, sh, hd, wk, polls, fd, rt, rd, ss, sd, de, uaf, bp⟩ := t
   obtain ⟨h1, h2, h3, h4, h5, h6, h7, h8, h9, h10, h11, h12, h13⟩ := h
-  simp [holders] at *
-  subst hc
-  simp [dropRef, taskDropByExecutor, holders]
-  sorry
+  cases nsw <;> cases c <;> cases hr <;> cases hw <;> cases hd <;> simp [holders, isRes] at * <;>
+    subst_vars <;> constructor <;> simp [dropRef, taskDropByExecutor, holders, isRes] <;> (try split) <;> (try simp_all) <;> (try omega)
 end Compio.Executor
